@@ -27,6 +27,7 @@
 #include <thread>
 #include <type_traits>
 #include <unordered_map>
+#include <sys/syscall.h>
 #include <unistd.h>
 #include <vector>
 
@@ -415,6 +416,27 @@ steady_clock::time_point steady_clock::now() noexcept
 }
 }}}
 
+// ---- output interposition: the moment a `bestmove` line has become visible to the GUI is a schedule point of the thread that wrote it.
+// VERIF_PARK="8:1:ms" parks that thread right AFTER the write (it reports PARKED on stderr), so that the GUI's next command arrives
+// while the thread has not yet done whatever it does after answering.
+static int g_afterbest_ms = 0;
+extern "C" ssize_t write(int fd, const void* buf, size_t n)
+{
+    ssize_t r = syscall(SYS_write, fd, buf, n);
+    if (fd == 1 && g_afterbest_ms > 0 && n >= 8 && std::this_thread::get_id() != g_main_thread && memmem(buf, n, "bestmove", 8) != nullptr)
+    {
+        static std::atomic<int> once{0};
+        if (once++ == 0)
+        {
+            const char msg[] = "PARKED point=afterbest\n";
+            syscall(SYS_write, 2, msg, sizeof msg - 1);
+            timespec req{g_afterbest_ms / 1000, (g_afterbest_ms % 1000) * 1000000L};
+            nanosleep(&req, nullptr);
+        }
+    }
+    return r;
+}
+
 #include "cppdrv_search.inc"
 
 int main(int argc, char** argv)
@@ -435,6 +457,7 @@ int main(int argc, char** argv)
         {
             sscanf(e, "%d:%d:%d", &g_park_point, &g_park_nth, &g_park_ms);
             if (g_park_point == 9) { g_clock_nth = g_park_nth; g_clock_ms = g_park_ms; g_park_point = -1; }
+            else if (g_park_point == 8) { g_afterbest_ms = g_park_ms; g_park_point = -1; }
             else verif::sched_fn = park_sched;
         }
         Uci u; u.loop();
